@@ -99,6 +99,9 @@ func Compare(d *ts.Def, s *ts.Schema, gt reflect.Type, reg Registry, handCodec b
 		if len(d.NonFlagParams()) != 0 {
 			rep("layout", "registered as an enum value but the schema line has parameters")
 		}
+		if d.FlagsPos() >= 0 {
+			rep("flags-position", "the schema line has a flags word (flags:#), but the constructor is an enumeration value: nothing can carry that word on the wire")
+		}
 		o := reflect.ValueOf(d.ID).Convert(gt).Interface().(tl.Object)
 		if o.CRC() != d.ID {
 			rep("id", fmt.Sprintf("CRC() %#08x, schema %#08x", o.CRC(), d.ID))
